@@ -155,6 +155,12 @@ def writer_reader(prog, run, reads):
                     mono = False
         ok = which == 1 and mono
         run.ob("R-vector", w.qual, "stored values = singular values (or their square roots) on the diagonal", ok, f"`{astq.src(x, 80)}`", astq.src(x, 70), file=fw, node=st)
+    for c in ast.walk(w.node):
+        if isinstance(c, ast.Call) and astq.callee_name(prog, w, c) in ("numpy.linalg.svd", "scipy.linalg.svd"):
+            h = astq.kwarg(c, "hermitian", 3)
+            okh = h is None or (isinstance(h, ast.Constant) and h.value is False)
+            run.ob("R-vector", w.qual, "general SVD of the line's matrix (no Hermitian shortcut: half spectra / correlogram spectra are not Hermitian)", okh,
+                   f"`{astq.src(c, 70)}`", witness=astq.src(h, 40) if h is not None else "", file=fw, node=c)
     run.ob("R-vector", w.qual, "values and vectors come from the same svd call", len(svd_calls) == 1, f"{len(svd_calls)} distinct svd call(s)", str(len(svd_calls)), file=fw, node=w.node)
     # moveaxis(line axis 0 -> 2) for both returned arrays
     rx = [astq.expr_at(w, rets[-1], e) for e in rets[-1].value.elts[:2]]
@@ -193,6 +199,7 @@ MUTANTS = [
     ("C06-m08 minimum of the ratio", FD, "FDD_mpe", "maxDiffS1S2 = np.max(diffS1S2)", "maxDiffS1S2 = np.min(diffS1S2)"),
     ("C06-m09 vector read at the requested line instead of the picked one", FD, "FDD_mpe", "phi_FDD = Svec[0, :, idxfin]", "phi_FDD = Svec[0, :, idxlim[0]]"),
     ("C06-m10 second singular vector", FD, "FDD_mpe", "phi_FDD = Svec[0, :, idxfin]", "phi_FDD = Svec[1, :, idxfin]"),
+    ("C06-m12 hermitian shortcut for square matrices", FD, "SD_svalsvec", "np.linalg.svd(SD[:, :, k])", "np.linalg.svd(SD[:, :, k], hermitian=nr == nc)"),
     ("C06-m11 bell reads components", FD, "SDOF_bellandMS", "Svec[csm, :, l_]", "Svec[:, csm, l_]", 1),
 ]
 REWRITES = [
